@@ -215,6 +215,15 @@ theorem C11_geZero_scalar_series (iF iP : Bool) (a : FoodVal K) (thr : K) (ha : 
     allGEZero iF iP (asSeries a) thr = allGEZero iF iP a thr :=
   allGEZero_asSeries iF iP a thr ((labelOK_iff a).1 ha) hsa
 
+/-- all the comparison predicates at once -/
+theorem C11_predicates (cfg : Cfg K) (a b : FoodVal K) (ha : labelOK a = true) (hb : labelOK b = true)
+    (hsa : a.series = false) (hsb : b.series = false) :
+    (∀ p, evalPred2 cfg p (asSeries a) (asSeries b) = evalPred2 cfg p a b) ∧
+    (∀ p, evalPred1 cfg p (asSeries a) = evalPred1 cfg p a) ∧
+    (∀ thr, allGEZero cfg.inclFat cfg.inclProtein (asSeries a) thr = allGEZero cfg.inclFat cfg.inclProtein a thr) :=
+  ⟨fun p => C11_predicates2 cfg p a b ha hb hsa hsb, fun p => C11_predicates1 cfg p a ha hsa,
+   fun thr => C11_geZero_scalar_series _ _ a thr ha hsa⟩
+
 /-- the one-month series of a correctly labelled single value is itself correctly labelled -/
 theorem asSeries_labelOK (a : FoodVal K) (ha : labelOK a = true) (hsa : a.series = false) : labelOK (asSeries a) = true := by
   have hA := (labelOK_iff a).1 ha
@@ -382,6 +391,10 @@ example : (runSkip cfgQ demoOps []).length = 10 ∧ (runSkip cfgQ demoOps []).al
 -- refusal of different units, and of a product without a ratio
 example : isErr (add twoMonths (asSeries (mkScalar 1 1 1 grams))) .assert = true := by decide +kernel
 example : isErr (mul (mkScalar 1 1 1 bk) (mkScalar 1 1 1 grams)) .assert = true := by decide +kernel
+-- the hypotheses of the ratio theorems: a correctly labelled ratio and a correctly labelled non-ratio, both accepted
+example : (mkScalar 2 2 2 [Label.ratio, Label.ratio, Label.ratio]).isRatio = true ∧ twoMonths.isRatio = false ∧
+    (mul (mkScalar 2 2 2 [Label.ratio, Label.ratio, Label.ratio]) twoMonths).toBool = true ∧
+    (mul twoMonths (mkScalar 2 2 2 [Label.ratio, Label.ratio, Label.ratio])).toBool = true := by decide +kernel
 -- the predicates' hypotheses: two single values and their one-month series
 example : evalPred2 cfgQ .anyGT (asSeries (mkScalar 1 5 1 bk)) (asSeries (mkScalar 1 1 1 bk)) = .ok true ∧
     evalPred2 cfgQ .anyGT (mkScalar 1 5 1 bk) (mkScalar 1 1 1 bk) = .ok true := by decide +kernel
